@@ -588,7 +588,7 @@ def effect_leaf(returns_arg0=False):
             deps |= I.typed_deps(a, ty)
         for c in I.pathcond:
             deps |= c.deps
-        I.effects.append((d, tuple(describe_arg(I, fr, a, ty) for a, ty in zip(args, tys)), dict(tm.ASSUME_LB), fr.body['d']))
+        I.effects.append((d, tuple(describe_arg(I, fr, a, ty) for a, ty in zip(args, tys)), tuple(I.pathcond), fr.body["d"]))
         I.opaque_calls.append((d, frozenset(deps), fr.body['d'], line))
         for a, ty in zip(args, tys):
             I.typed_havoc(a, ty, deps)
